@@ -562,6 +562,18 @@ func registerEnvStubs(e *Engine) {
 	// is arbitrary (no more bytes, a stray closing bracket, or garbage that looks like a value)
 	in["(*encoding/json.Decoder).More"] = func(fr *frame, a []value) value {
 		dec := (*a[0].(*value)).(nativeObj).v.(*jsonDecoder)
+		if dec.native != nil {
+			// concrete text: the real decoder's answer (false before a closing bracket or at the end)
+			return dec.native.More()
+		}
+		if dec.docs > 0 && !dec.bad {
+			// abstract text after its document: nothing, unless the environment chose trailing text - which
+			// More only sees when it does not start with a closing bracket
+			if fr.i.ps.flagDecide("decode.trailing") {
+				return fr.i.ps.choose(2) == 1
+			}
+			return false
+		}
 		if dec.unreadable(fr.i.ps) {
 			ps := fr.i.ps
 			name := "decode.more"
